@@ -92,7 +92,7 @@ def unwindset(n, exact=False, dynamic=False, extra=None, ncalls=1, nblk=2, avail
         u.update({"rfc_codes.0": n + 3, "rfc_codes.1": n + 2, "rfc1951_inflate.0": n + 2,
                   "rfc1951_inflate.1": nblk + 1})
     if dynamic:
-        u.update({"rfc_dynamic.0": 20, "rfc_dynamic.1": 20, "rfc_dynamic.2": 330, "rfc_dynamic.3": 140,
+        u.update({"rfc_dynamic.0": 20, "rfc_dynamic.1": 20, "rfc_dynamic.2": 140, "rfc_dynamic.3": 330,
                   "rfc_construct.0": 17, "rfc_construct.1": 330, "rfc_construct.2": 16, "rfc_construct.3": 16,
                   "rfc_construct.4": 330, "rfc_decode.0": 16})
     if extra:
@@ -102,3 +102,9 @@ def unwindset(n, exact=False, dynamic=False, extra=None, ncalls=1, nblk=2, avail
 
 def cdef(name, vals):
     return "%s=%s" % (name, ",".join(str(v) for v in vals) if vals else "0")
+
+
+def fs_flags(avail):
+    """keep the output object cell-split in symex (default limit is 64 elements): header bytes copied from
+    the constant tables then stay constants, which keeps the reference decoder's header parse concrete"""
+    return ["--max-field-sensitivity-array-size", str(max(64, avail + 8))]
